@@ -4,6 +4,7 @@ import (
 	"go/ast"
 	"go/token"
 	"go/types"
+	"strings"
 )
 
 func init() {
@@ -307,6 +308,116 @@ func runC38(c *Ctx) {
 		RejectRuleLoose(c, "force-rewrites-refspecs", sp)
 	}
 	c.Floor(r3, 1)
+
+	// refspec-direction: a push refspec maps local names to remote names. Inside a callback that iterates the remote's
+	// references (the parameter of the ForEach over <remote refs>.IterReferences()), a RefSpec is applied to the
+	// reference's name (Match, Dst) only through a value obtained from Reverse(); applying the forward refspec to a
+	// remote name yields a name that does not exist locally, so prune would delete live references.
+	const r4 = "refspec-direction"
+	gitPk := p.Pkg("git")
+	nDir := 0
+	if gitPk != nil {
+		ginfo := gitPk.TypesInfo
+		// only the push side: functions reachable from PushContext and not from fetch (fetch refspecs map remote to local)
+		pushSide, fetchSide := map[*types.Func]bool{}, map[*types.Func]bool{}
+		for _, fi := range p.staticClosure([]*FuncInfo{p.Func("git.(*Remote).PushContext")}) {
+			pushSide[fi.Obj] = true
+		}
+		for _, fi := range p.staticClosure([]*FuncInfo{p.Func("git.(*Remote).fetch")}) {
+			fetchSide[fi.Obj] = true
+		}
+		for _, fi := range p.FuncsIn("git") {
+			if fi.Decl.Body == nil || p.isTestFile(fi.Decl.Pos()) || !pushSide[fi.Obj] || fetchSide[fi.Obj] {
+				continue
+			}
+			// iterators obtained from a parameter/variable whose name says it holds the remote's references
+			remoteIters := map[types.Object]bool{}
+			ast.Inspect(fi.Decl.Body, func(n ast.Node) bool {
+				as, ok := n.(*ast.AssignStmt)
+				if !ok || len(as.Rhs) != 1 || len(as.Lhs) < 1 {
+					return true
+				}
+				call, ok := unparen(as.Rhs[0]).(*ast.CallExpr)
+				if !ok {
+					return true
+				}
+				sel, ok := unparen(call.Fun).(*ast.SelectorExpr)
+				if !ok || sel.Sel.Name != "IterReferences" {
+					return true
+				}
+				if o := objOf(ginfo, sel.X); o != nil && strings.Contains(strings.ToLower(o.Name()), "remote") {
+					if it := objOf(ginfo, as.Lhs[0]); it != nil {
+						remoteIters[it] = true
+					}
+				}
+				return true
+			})
+			if len(remoteIters) == 0 {
+				continue
+			}
+			ast.Inspect(fi.Decl.Body, func(n ast.Node) bool {
+				call, ok := n.(*ast.CallExpr)
+				if !ok || len(call.Args) != 1 {
+					return true
+				}
+				sel, ok := unparen(call.Fun).(*ast.SelectorExpr)
+				if !ok || sel.Sel.Name != "ForEach" || !remoteIters[objOf(ginfo, sel.X)] {
+					return true
+				}
+				lit, ok := unparen(call.Args[0]).(*ast.FuncLit)
+				if !ok || len(lit.Type.Params.List) != 1 || len(lit.Type.Params.List[0].Names) != 1 {
+					return true
+				}
+				refParam := ginfo.Defs[lit.Type.Params.List[0].Names[0]]
+				// reversed refspec values inside the literal (and in the enclosing function)
+				reversed := map[types.Object]bool{}
+				ast.Inspect(fi.Decl.Body, func(m ast.Node) bool {
+					as, ok := m.(*ast.AssignStmt)
+					if !ok || len(as.Lhs) != 1 || len(as.Rhs) != 1 {
+						return true
+					}
+					if rc, ok := unparen(as.Rhs[0]).(*ast.CallExpr); ok {
+						if rs, ok := unparen(rc.Fun).(*ast.SelectorExpr); ok && rs.Sel.Name == "Reverse" {
+							if o := ginfo.Defs[identOf(as.Lhs[0])]; o != nil {
+								reversed[o] = true
+							} else if o := objOf(ginfo, as.Lhs[0]); o != nil {
+								reversed[o] = true
+							}
+						}
+					}
+					return true
+				})
+				ast.Inspect(lit.Body, func(m ast.Node) bool {
+					mc, ok := m.(*ast.CallExpr)
+					if !ok || len(mc.Args) != 1 || !usesObj(ginfo, mc.Args[0], refParam) {
+						return true
+					}
+					ms, ok := unparen(mc.Fun).(*ast.SelectorExpr)
+					if !ok || (ms.Sel.Name != "Match" && ms.Sel.Name != "Dst") {
+						return true
+					}
+					tv := ginfo.Types[ms.X]
+					if tv.Type == nil || !strings.HasSuffix(tv.Type.String(), "config.RefSpec") {
+						return true
+					}
+					nDir++
+					c.Analysed(fi)
+					recv := ginfo.Uses[identOf(ms.X)]
+					key := fi.Name() + ":" + ms.Sel.Name + "(" + exprString(mc.Args[0]) + ")#" + itoa(nDir)
+					c.Check(recv != nil && reversed[recv], r4, key, mc.Pos(), orStr(ifStr(recv == nil || !reversed[recv], "a forward (local→remote) refspec is applied to the name of a remote reference; the result is not a local name, so the local counterpart is never found"),
+						"the remote reference's name goes through the reversed refspec"))
+					return true
+				})
+				return true
+			})
+		}
+	}
+	c.Check(nDir >= 2, r4, "git:remote-name-mappings", 0, itoa(nDir)+" refspec applications to remote reference names examined")
+}
+
+func identOf(e ast.Expr) *ast.Ident {
+	id, _ := unparen(e).(*ast.Ident)
+	return id
 }
 
 // RejectRuleLoose (C38): under `o.Force` the only assignments are to o.RefSpecs[i].
